@@ -32,6 +32,7 @@ from vf import runner
 
 ID = 'C02'
 LEVEL = 'exploration'
+QUICK_SCALE = 4      # the quick tier was enlarged by this factor after MIN_OBS['quick'] was measured
 
 GOOD_S = 'good-'                  # marker of good string ids
 GOOD_I = 0x600D0000               # marker of good integer ids (upper 16 bits)
@@ -42,7 +43,7 @@ STREAM_CAP = 1400                 # max body size of a hostile frame inside a st
 CALL_WATCHDOG = 10.0              # wall seconds per direct parser call
 
 SIZES = {
-    'quick': {'parser_batches': 40, 'batch': 500, 'streams': 400, 'accept': 40, 'sem_random': 60},
+    'quick': {'parser_batches': 160, 'batch': 500, 'streams': 1600, 'accept': 160, 'sem_random': 240},
     'thorough': {'parser_batches': 8000, 'batch': 500, 'streams': 60000, 'accept': 3000, 'sem_random': 6000},
 }
 MIN_OBS = {
